@@ -298,6 +298,8 @@ class RealRun:
         return ExprBuilder(self.env, self.share_memo)
 
     def setup_tables(self):
+        names = [ts["name"] for ts in self.p["tables"]]
+        assert len(set(names)) == len(names), f"harness: duplicate table names {names}"
         for ts in self.p["tables"]:
             self.env[ts["handle"]] = self.be.make_table(ts)
 
